@@ -305,6 +305,13 @@ class VState:
                         okv = "as Ok" if is_res else "as Some"
                         if is_res or is_opt:
                             add.update(self._copy_under(st, (a[0], a[1] + (okv, ".0")), (d[0], ("as Continue", ".0"))))
+                elif c.decl_path == "std::ops::FromResidual::from_residual":
+                    # std: Result's residual is an Err, Option's is None - what comes back is that variant again
+                    ty = c.inst
+                    if ty.startswith("<std::result::Result<") or ty.startswith("<core::result::Result<"):
+                        add[(d[0], ())] = ("in", frozenset([1]))
+                    elif ty.startswith("<std::option::Option<") or ty.startswith("<core::option::Option<"):
+                        add[(d[0], ())] = ("in", frozenset([0]))
             if d:
                 if d[1]:
                     for kk in [kk for kk in st if kk[0] == d[0]]:
